@@ -225,9 +225,9 @@ fn emit(spec: &ScanSpec, subject_expr: &str, level: u32, indent: usize, out: &mu
 
 fn gen_spec(rng: &mut Rng, depth: usize) -> ScanSpec {
     if depth == 0 && rng.chance(1, 25) {
-        // a table of 33-48 literal arms: dozens of candidates per round, many of them tied for
+        // a table of 40-60 literal arms: dozens of candidates per round, many of them tied for
         // the earliest start, found at offsets that are not in arm order
-        let n = rng.range(33, 48);
+        let n = rng.range(40, 60);
         let mut regexes = Vec::new();
         for _ in 0..n {
             let len = rng.range(1, 3);
@@ -326,7 +326,12 @@ impl Prop for C10 {
     }
     fn run_case(&self, _cfg: &RunCfg, _idx: usize, rng: &mut Rng, out: &mut Out) {
         let spec = gen_spec(rng, 0);
-        let subject = gen_subject(rng);
+        let mut subject = gen_subject(rng);
+        if spec.regexes.len() > 32 {
+            // a subject long enough for most of the literal arms to occur somewhere in it
+            let n = rng.range(80, 160);
+            subject = (0..n).map(|_| *rng.pick(&["a", "b", "/", ".", "é", " "])).collect();
+        }
         let mut res = Vec::new();
         if !flatten(&spec, &mut res) {
             out.inconclusive("harness: generated an invalid regex");
